@@ -525,6 +525,17 @@ pub fn equality_shape<N: Nondet, const SHAPE: u8, const NEGATE: bool>(n: &mut N)
             (d.add_list_direct(&[a]), d.add_list_direct(&[b]))
         }
         12 => (d.add_pair((n0, sym)).unwrap(), d.add_pair((n2, n3)).unwrap()),
+        14 => {
+            // a leaf of another type in the MIDDLE: the comparison decides while item pairs are still queued
+            let u = d.add_unit().unwrap();
+            (d.add_list_direct(&[n0, u, n2]), d.add_list_direct(&[n3, n4, n5]))
+        }
+        15 => {
+            let u = d.add_unit().unwrap();
+            let a = d.add_pair((n0, u)).unwrap();
+            let b = d.add_pair((n2, n3)).unwrap();
+            (d.add_list_direct(&[a, n1]), d.add_list_direct(&[b, n4]))
+        }
         _ => {
             let l = d.add_list_direct(&[n0, n1, n2]);
             let r0 = d.add_list_direct(&[n3, n4]);
@@ -534,10 +545,10 @@ pub fn equality_shape<N: Nondet, const SHAPE: u8, const NEGATE: bool>(n: &mut N)
     let expected = ref_eq(&d, left, right, 3);
     let mut s = finish(n, d, &[left, right], instr);
     let res = execute_current_instruction(&mut s.d);
-    gv_cover!(expected == Some(true) || SHAPE == 5 || SHAPE == 6 || SHAPE == 12, "equal case reachable");
+    gv_cover!(expected == Some(true) || SHAPE == 5 || SHAPE == 6 || SHAPE == 12 || SHAPE == 14 || SHAPE == 15, "equal case reachable");
     gv_cover!(expected == Some(false) || SHAPE == 2 || SHAPE == 7, "unequal case reachable");
     pa!("C11", ran_ok(res));
-    pa!("C11", s.d.n_regs == s.regs_before - 1 && s.d.regs[0] == s.sentinel);
+    pa!("C06,C11", s.d.n_regs == s.regs_before - 1 && s.d.regs[0] == s.sentinel);
     pa!("C06", s.d.cursor == 1 && s.d.n_values == s.values_before && s.d.n_frames == s.frames_before);
     let t = s.d.cells[top(&s.d)].tag;
     match expected {
